@@ -31,6 +31,8 @@ type Check struct {
 	// MustProbe lists probes that have to be > 0 in a thorough batch; a probe
 	// stuck at zero is a harness failure (exit 2), never a violation.
 	MustProbe []string
+	// Serial forces one worker (the check uses process-global state such as a yield hook).
+	Serial bool
 	// SimTimeNote explains what "simulated time" means for this check.
 	SimTimeNote string
 }
@@ -196,7 +198,7 @@ func Main(c *Check, tb *testing.T) int {
 		n = v
 	}
 	workers := envInt("VERIF_WORKERS", runtime.NumCPU())
-	if workers < 1 {
+	if workers < 1 || c.Serial {
 		workers = 1
 	}
 	budget := time.Duration(envInt("VERIF_BUDGET_S", map[string]int{"quick": 240, "thorough": 3000}[tier])) * time.Second
